@@ -33,22 +33,25 @@ type rewrite struct {
 	imp   bool        // add the verifrt import
 }
 
+// Every occurrence of a listed loop header is rewritten (count 0 = at least one): a change to the
+// repository that adds another loop over the same map keeps the check running instead of turning it
+// into an infrastructure error.
 func mapOrderRewrites() []rewrite {
 	return []rewrite{
 		{
 			name: "maporder:finder", file: "pkg/api/utils/closed_sets_finder.go", imp: true,
 			edits: [][2]string{{"for want := range f.Wants {", "for _, want := range verifrt.MapOrder(\"finder.Wants\", f.Wants) {"}},
-			count: []int{1},
+			count: []int{0},
 		},
 		{
 			name: "maporder:finder-refs", file: "pkg/api/utils/closed_sets_finder.go", imp: true,
 			edits: [][2]string{{"for _, v := range m {", "for _, mk := range verifrt.MapOrder(\"finder.Refs\", m) {\n\t\tv := m[mk]"}},
-			count: []int{1},
+			count: []int{0},
 		},
 		{
 			name: "maporder:fetch-refs", file: "pkg/api/client/upload_pack_session.go", imp: true,
 			edits: [][2]string{{"for _, v := range m {", "for _, mk := range verifrt.MapOrder(\"fetch.Refs\", m) {\n\t\tv := m[mk]"}},
-			count: []int{1},
+			count: []int{0},
 		},
 		{
 			name: "maporder:push-tables", file: "pkg/api/client/receive_pack_session.go", imp: true,
@@ -56,12 +59,12 @@ func mapOrderRewrites() []rewrite {
 				{"for sum := range s.tablesToSend {", "for _, sum := range verifrt.MapOrder(\"push.Tables\", s.tablesToSend) {"},
 				{"for _, sum := range remoteRefs {", "for _, mk := range verifrt.MapOrder(\"push.RemoteRefs\", remoteRefs) {\n\t\tsum := remoteRefs[mk]"},
 			},
-			count: []int{1, 1},
+			count: []int{0, 0},
 		},
 		{
 			name: "maporder:transaction", file: "pkg/transaction/transaction.go", imp: true,
 			edits: [][2]string{{"for branch, sum := range m {", "for _, branch := range verifrt.MapOrder(\"transaction.Commit\", m) {\n\t\tsum := m[branch]"}},
-			count: []int{2},
+			count: []int{0},
 		},
 	}
 }
